@@ -402,3 +402,147 @@ def standard_proof_phase(ctx, prop, cone_targets):
         if extra:
             raise MachineryError(f"{n} depends on axioms outside the allowlist: {extra}")
     return names, ass
+
+
+# ------------------------------------------------------------------ generic property runner
+
+def generic_shrink(case, still_fails, list_fields, budget=40):
+    cur, changed = case, True
+    while changed and budget > 0:
+        changed = False
+        for field in list_fields:
+            if not isinstance(cur.get(field), list):
+                continue
+            i = 0
+            while i < len(cur[field]) and budget > 0:
+                cand = dict(cur); cand[field] = cur[field][:i] + cur[field][i + 1:]
+                budget -= 1
+                if still_fails(cand):
+                    cur, changed = cand, True
+                else:
+                    i += 1
+    return cur
+
+
+class Spec:
+    """What a property module provides to run_property()."""
+    prop = None            # "C12"
+    cone = None            # [".../Properties/C12.v"]
+    header = None          # Coq header of case shards
+    area = None            # oracle area
+    list_fields = ()       # case fields the shrinker may shorten
+    per_shard = 250
+    checker_cmd = None
+    modelled = None        # "Modelled, not verified: ..."
+    rule = None
+    assumptions = ()
+
+    def gen_cases(self, ctx): raise NotImplementedError
+    def direct_check(self, case, out): return None      # property text on the implementation's output
+    def goal_of(self, case, out): raise NotImplementedError   # Gallina boolean that must compute to true
+    def nontrivial_key(self, case, out): return json.dumps(case, sort_keys=True)
+    def key_of(self, case): return case.get("kind", "case")   # stable key for known findings
+    def run_oracle(self, cases): return oracle(self.area, cases)
+    def extra(self, ctx, cases, outs): return {}             # more coverage keys / extra violations
+    def sample(self, case, out): return {"case": case, "observed": out}
+
+
+def run_property(spec, ctx, replay=None):
+    build_harness()
+    phase = standard_proof_phase(ctx, spec.prop, spec.cone)
+    names, ass = phase if phase else ([], {})
+    corpus = []
+    cdir = os.path.join(VERIF, "corpus", spec.prop)
+    if os.path.isdir(cdir):
+        for f in sorted(os.listdir(cdir)):
+            if f.endswith(".jsonl"):
+                corpus += [json.loads(l) for l in open(os.path.join(cdir, f)) if l.strip()]
+    if replay and "case" in replay.get("replay", {}):
+        cases = [replay["replay"]["case"]]
+    else:
+        cases = corpus + spec.gen_cases(ctx)
+
+    outs, p = spec.run_oracle(cases)
+    direct, corr = [], []
+    if outs is None:
+        outs = []
+        for i, c in enumerate(cases):
+            o, pp = spec.run_oracle([c])
+            outs.append(o[0] if o else None)
+            if o is None:
+                direct.append((i, f"implementation crashed: rc={pp.returncode} {pp.stderr.strip()[-400:]}"))
+                if len(direct) >= 3:
+                    outs += [None] * (len(cases) - len(outs))
+                    break
+    live = [i for i, o in enumerate(outs) if o is not None]
+    for i in live:
+        m = spec.direct_check(cases[i], outs[i])
+        if m:
+            direct.append((i, m))
+    goals = {i: spec.goal_of(cases[i], outs[i]) for i in live}
+    remaining = list(live)
+    for _ in range(4):
+        fails = run_shards(spec.prop, spec.header, [goals[i] for i in remaining], per_shard=spec.per_shard)
+        if not fails:
+            break
+        bad = [remaining[f] for f in fails]
+        corr += bad
+        remaining = [i for i in remaining if i not in bad]
+
+    def fails_direct(c):
+        o, _ = spec.run_oracle([c])
+        return o is None or spec.direct_check(c, o[0]) is not None
+
+    def fails_corr(c):
+        o, _ = spec.run_oracle([c])
+        return o is not None and not goal_holds(spec.prop, spec.header, spec.goal_of(c, o[0]))
+
+    seen = set()
+    for i, msg in direct:
+        k = spec.key_of(cases[i])
+        if k in seen or len(seen) >= 3:
+            continue
+        seen.add(k)
+        small = generic_shrink(cases[i], fails_direct, spec.list_fields)
+        o, _ = spec.run_oracle([small])
+        m2 = (spec.direct_check(small, o[0]) if o else msg) or msg
+        ctx.violation("direct:" + k, {"case": small, "what": m2, "observed": o[0] if o else None}, True)
+    if not direct:
+        for i in corr:
+            k = spec.key_of(cases[i])
+            if k in seen or len(seen) >= 3:
+                continue
+            seen.add(k)
+            small = generic_shrink(cases[i], fails_corr, spec.list_fields)
+            o, _ = spec.run_oracle([small])
+            ctx.violation("corr:" + k,
+                          {"case": small, "observed": o[0] if o else None,
+                           "broken": f"correspondence goal `{spec.goal_of(small, o[0])[:80]}...` of {spec.header.splitlines()[-1]}: "
+                                     "the model no longer reproduces what the implementation does; the property's direct check "
+                                     "found no failing input"}, False)
+    keys, kinds = set(), {}
+    for i in live:
+        k = spec.nontrivial_key(cases[i], outs[i])
+        if k is not None:
+            keys.add(k if isinstance(k, (str, tuple)) else json.dumps(k, sort_keys=True))
+        kk = cases[i].get("kind", "case")
+        kinds[kk] = kinds.get(kk, 0) + 1
+    extra = spec.extra(ctx, cases, outs) or {}
+    nth = len(names)
+    cov = {
+        "obligations": nth + len(cases) + extra.get("obligations", 0),
+        "discharged": (nth if phase else 0) + len(cases) - len(corr) - (len(cases) - len(live)) + extra.get("discharged", 0),
+        "checker_cmd": spec.checker_cmd or f"make -C coq theories/Properties/{spec.prop}.vo (coqc, full .vo build) + coqc on generated "
+                       f"coq/cases/{spec.prop}/cases_*.v (each goal closed by vm_compute; reflexivity)",
+        "trusted_base": TRUSTED_BASE_COMMON + [spec.modelled,
+            "Print Assumptions: " + "; ".join(f"{n}: {'closed under the global context' if not a else ','.join(a)}" for n, a in ass.items())],
+        "theorems": names,
+        "evaluations": len(cases), "distinct_nontrivial": len(keys), "rule": spec.rule,
+        "traces_validated_against_impl": len(live) - len(corr),
+        "kinds": kinds, "exhaustive": False,
+        "samples": [spec.sample(cases[i], outs[i]) for i in (live[:1] + live[len(live) // 2:len(live) // 2 + 1] + live[-1:])],
+    }
+    for k, v in extra.items():
+        if k not in ("obligations", "discharged"):
+            cov[k] = v
+    return ctx.finish(cov, list(spec.assumptions))
